@@ -375,7 +375,7 @@ func (s *scen) sparse() {
 }
 
 func partGitWritten(c *vf.Ctx, g *gitx.Git) {
-	n := c.N(14, 140)
+	n := c.N(14, 84)
 	tmp := c.TempDir("snap")
 	// scenarios are independent: run them on a few workers, each with its own repository
 	vf.Parallel(n, 6, func(i int) {
